@@ -362,6 +362,9 @@ void MEDDLY::counter_array::expand8to16(size_t j)
 
     counts_09bit = 1;
     bytes = sizeof(unsigned short);
+#ifdef MEDDLY_VERIF
+    MEDDLY_VERIF_PROBE(P_CNT_8TO16);
+#endif
     data16 = (unsigned short*) malloc(size * bytes);
     if (!data16) {
         throw error(error::INSUFFICIENT_MEMORY, __FILE__, __LINE__);
@@ -388,6 +391,9 @@ void MEDDLY::counter_array::expand16to32(size_t j)
 
     counts_17bit = 1;
     bytes = sizeof(unsigned int);
+#ifdef MEDDLY_VERIF
+    MEDDLY_VERIF_PROBE(P_CNT_16TO32);
+#endif
     data32 = (unsigned int*) malloc(size * bytes);
     if (!data32) {
         throw error(error::INSUFFICIENT_MEMORY, __FILE__, __LINE__);
@@ -403,6 +409,9 @@ void MEDDLY::counter_array::expand16to32(size_t j)
 
 void MEDDLY::counter_array::shrink16to8(size_t ns)
 {
+#ifdef MEDDLY_VERIF
+    MEDDLY_VERIF_PROBE(P_CNT_NARROW);
+#endif
 #ifdef DEBUG_COUNTER_RESIZE
     std::cerr << "Narrowing counter array from 16 to 8 bits\n";
 #endif
@@ -429,6 +438,9 @@ void MEDDLY::counter_array::shrink16to8(size_t ns)
 
 void MEDDLY::counter_array::shrink32to16(size_t ns)
 {
+#ifdef MEDDLY_VERIF
+    MEDDLY_VERIF_PROBE(P_CNT_NARROW);
+#endif
 #ifdef DEBUG_COUNTER_RESIZE
     std::cerr << "Narrowing counter array from 16 to 8 bits\n";
 #endif
@@ -454,6 +466,9 @@ void MEDDLY::counter_array::shrink32to16(size_t ns)
 
 void MEDDLY::counter_array::shrink32to8(size_t ns)
 {
+#ifdef MEDDLY_VERIF
+    MEDDLY_VERIF_PROBE(P_CNT_NARROW);
+#endif
 #ifdef DEBUG_COUNTER_RESIZE
     std::cerr << "Narrowing counter array from 16 to 8 bits\n";
 #endif
